@@ -71,14 +71,6 @@ Fixpoint join_dot (parts : list text) : text :=
 
 Definition t_re : text := [114; 101].
 Definition t_compile : text := [99; 111; 109; 112; 105; 108; 101].
-Definition text_eqb (a b : text) : bool :=
-  (fix go (a b : text) : bool :=
-     match a, b with
-     | [], [] => true
-     | x :: a', y :: b' => N.eqb x y && go a' b'
-     | _, _ => false
-     end) a b.
-
 (* node2dottedname(node.func) == [re, compile] *)
 Definition is_re_compile (f : expr) : bool :=
   match dotted f with
@@ -215,8 +207,6 @@ Fixpoint dotted_tokens (parts : list text) : list token :=
   | p :: rest => TName p :: TDot :: dotted_tokens rest
   end.
 
-Definition T_set : text := [115; 101; 116].
-
 Fixpoint pp (pc : pctx) (e : expr) {struct e} : list token :=
   match e with
   | ELeaf l => [TLeaf l]
@@ -337,7 +327,7 @@ Fixpoint expr_of_sexp (fuel : nat) (s : sexp) : option expr :=
   end.
 
 Fixpoint sexp_depth (s : sexp) : nat :=
-  match s with A _ => 1 | L l => S (fold_right (fun x acc => Nat.max (sexp_depth x) acc) 0 l) end.
+  match s with A _ => 1 | L l => S (fold_right (fun x acc => Nat.max (sexp_depth x) acc) 0%nat l) end.
 
 Definition pctx_of_N (n : N) : pctx :=
   match n with
